@@ -5,6 +5,14 @@ HERE = os.path.dirname(os.path.dirname(os.path.abspath(__file__)))
 
 # id -> (technique, level text, level note, design ref)
 CHECKS = {
+ "C04": ("PBT against an exhaustive dynamic program over all legal break sequences (reference optimum + validity predicate), calibrated on the repository's TeX-verified goldens and traces",
+         "Random lists over a synthetic font (words, glue incl. infinite, penalties from -20000 to 20000, explicit kerns, discretionaries with pre/post/replace parts, discardable runs; 3-40+ breakpoints) x 1-3 line widths x tolerances x every demerit/penalty parameter x skips x emergency stretch x looseness -2..2 x force_solution. break_line_single_attempt returns Some iff the unpruned DP over (break x line count x fitness class) finds a feasible sequence (with TeX 873-875 for looseness); returned breaks are legal, every line's badness within tolerance as recomputed by the model, and total demerits equal the DP optimum for the selected line count; break positions are never compared. Goldens: 28 configurations pass by pass against the recorded TeX logs.",
+         "Trusted: models/kp_eval.rs (TeX 813-875 semantics without active list/deactivation/class pruning), proptest. Non-monotone instances, totals reaching awful_bad and exact looseness ties are outside the property: skipped and counted.",
+         "DESIGN.md §4 C04"),
+ "C12": ("PBT against reference models: space-factor machine (TeX 1034, 1041-1044) and a transcription of post_line_break (877-890 incl. pruning 879), with the breakpoints recomputed differentially on a clone",
+         "Random texts in cmr10 (ligature/kern sequences, space-factor punctuation, capitals, explicit hyphens, hyphenatable and letterless words) x \\spaceskip/\\xspaceskip x three space-factor tables x hyphenation on/off, and hand-built lists biased to consecutive glue/penalty/kern runs and discretionaries with all three parts, broken with random line widths, indents, penalties, skips, tolerances, looseness. The list spells the words; every inter-word glue equals the model; the broken list is the prepared list ending in \\penalty10000 \\parfillskip; line boxes and inter-line penalties equal the model item for item (nothing lost, duplicated or reordered; only the break item and following discardables dropped) with the requested width and shift.",
+         "Trusted: the two models, cmr10 from the repository corpus, proptest. Breakpoint choice is C04's, glue setting C15's; baseline-skip glue is ignored.",
+         "DESIGN.md §4 C12"),
  "C03": ("PBT + exhaustive small scope against a transcription of TeX's line scanner (reference model) with trace-position validity, calibrated on the lexer's 76 table tests",
          "Random sources over an alphabet hitting every scanner branch (escape, braces, ^^ forms incl. hex, nested, at line ends and in names, blanks, CR, NUL, DEL, non-ASCII) x random category-code tables (60% plain, 40% uniform per occurring character) x \\endlinechar in {none, CR, letter, ^, any ASCII}, also with the configuration switched mid-stream; all strings of length<=5 (<=6 thorough) over 8 symbols under 8 tables. Tokens (kind, name, char, catcode, InvalidCharacter) must equal the model one for one in both report_end_of_line modes; every token's trace must give the model's line number, full line text and a column inside the allowed span; no panic, no key exhaustion.",
          "Trusted: models/tex_lexer.rs (TeX 343-356 transcription, reproduces the 76 goldens), proptest. Column tolerance for tokens made by ^^ reduction or by the appended end-line char is the property's (DESIGN.md C03).",
